@@ -37,3 +37,4 @@
 (declare-fun sch_nuniques (Iface) Int)
 (declare-fun sch_unique (Iface Int) Slice)
 (declare-fun unique_key (Int Slice) String)
+(declare-fun sch_defaultcase (Iface) String)     ; Choice.DefaultCase()
